@@ -193,8 +193,25 @@ func Stat(name string) (os.FileInfo, error) {
 	if err := pre("Stat", name); err != nil {
 		return nil, err
 	}
-	return os.Stat(name)
+	fi, err := os.Stat(name)
+	if err == nil && Age != 0 {
+		return agedInfo{fi, Age}, nil
+	}
+	return fi, err
 }
+
+// Age, when non-zero, makes every file look that much older to Stat: the elapsed time between two steps of
+// different processes is not bounded by the scheduler, so a peer that has been waiting on the server for Age
+// (below the HTTP client's timeout) is a legitimate concurrent state.
+var Age time.Duration
+
+type agedInfo struct {
+	os.FileInfo
+	by time.Duration
+}
+
+func (a agedInfo) ModTime() time.Time { return a.FileInfo.ModTime().Add(-a.by) }
+
 func ReadDir(name string) ([]os.DirEntry, error) {
 	if err := pre("ReadDir", name); err != nil {
 		return nil, err
